@@ -5,6 +5,11 @@
   (every read of `regroup_eps` is the model input `eps_arcmin`: the linking length in arcmin *after*
   the default `4*mean(a)/60` has been filled in)
 * `cluster.py:resize`, ratio branch         `src.a = <expr>`, `src.b = <expr>`       -> Gen.C19.resizeA/B
+* `cluster.py:regroup_dbscan`               the three columns of the array given to DBSCAN     -> Gen.C19.vec0/vec1/vec2
+  (the unit-vector embedding of a row `(ra, dec)` in degrees; `_slice_embed` finds the variable passed to `.fit(…)`,
+  the three names it is assembled from, and keeps the straight-line assignments before it, with every
+  `np.array([s.ra for s in srccat])`-like column extraction replaced by the scalar inputs `ra_deg` / `dec_deg`;
+  anything else — more or fewer than three columns, a cast or call wrapped around a column — is UNTRANSLATABLE)
 
 The translator only binds plain names, and merges `if` branches; the ratio formula assigns to
 attributes (`src.a = …`) inside `if ratio is not None: for …:`.  `_slice_resize` therefore cuts that
@@ -65,6 +70,165 @@ def _slice_resize(repo):
         return ''
 
 
+
+class _Columns(ast.NodeTransformer):
+    """`np.array([s.ra for s in srccat])`, `np.asarray(...)`, a bare list/generator comprehension over `.ra` / `.dec`
+    -> the scalar model inputs `ra_deg` / `dec_deg`"""
+    MAP = {'ra': 'ra_deg', 'dec': 'dec_deg'}
+
+    @staticmethod
+    def _comp_attr(node):
+        if isinstance(node, (ast.ListComp, ast.GeneratorExp)) and len(node.generators) == 1 \
+                and not node.generators[0].ifs and isinstance(node.elt, ast.Attribute) \
+                and isinstance(node.elt.value, ast.Name) and isinstance(node.generators[0].target, ast.Name) \
+                and node.elt.value.id == node.generators[0].target.id and node.elt.attr in _Columns.MAP:
+            return _Columns.MAP[node.elt.attr]
+        return None
+
+    def visit_Call(self, node):
+        f = node.func
+        if isinstance(f, ast.Attribute) and isinstance(f.value, ast.Name) and f.value.id in ('np', 'numpy') \
+                and f.attr in ('array', 'asarray', 'fromiter') and node.args and not node.keywords:
+            nm = self._comp_attr(node.args[0])
+            if nm and len(node.args) == 1:
+                return ast.copy_location(ast.Name(id=nm, ctx=ast.Load()), node)
+        self.generic_visit(node)
+        return node
+
+    def visit_ListComp(self, node):
+        nm = self._comp_attr(node)
+        return ast.copy_location(ast.Name(id=nm, ctx=ast.Load()), node) if nm else node
+
+
+def _column_names(rhs):
+    """names of the per-row columns an `np.hstack([x[:, None], …])` / `np.column_stack((x, y, z))` /
+    `np.array([x, y, z]).T` right-hand side is assembled from; None if the shape is not recognised"""
+    node = rhs
+    if isinstance(node, ast.Attribute) and node.attr == 'T':
+        node = node.value
+    if not (isinstance(node, ast.Call) and isinstance(node.func, ast.Attribute) and isinstance(node.func.value, ast.Name)
+            and node.func.value.id in ('np', 'numpy') and node.func.attr in ('hstack', 'column_stack', 'stack', 'array', 'vstack')
+            and len(node.args) >= 1 and isinstance(node.args[0], (ast.List, ast.Tuple))):
+        return None
+    if node.func.attr in ('array', 'vstack') and not (isinstance(rhs, ast.Attribute) and rhs.attr == 'T'):
+        return None                      # rows, not columns
+    for kw in node.keywords:
+        if not (kw.arg == 'axis' and isinstance(kw.value, ast.Constant) and kw.value.value in (1, -1)):
+            return None
+    if node.func.attr == 'stack' and not node.keywords:
+        return None
+    names = []
+    for e in node.args[0].elts:
+        if isinstance(e, ast.Subscript) and isinstance(e.value, ast.Name):       # x[:, None]
+            sl = e.slice
+            ok = isinstance(sl, ast.Tuple) and len(sl.elts) == 2 and isinstance(sl.elts[0], ast.Slice) \
+                and sl.elts[0].lower is None and sl.elts[0].upper is None and sl.elts[0].step is None \
+                and ((isinstance(sl.elts[1], ast.Constant) and sl.elts[1].value is None)
+                     or (isinstance(sl.elts[1], ast.Attribute) and sl.elts[1].attr == 'newaxis'))
+            if not ok:
+                return None
+            names.append(e.value.id)
+        elif isinstance(e, ast.Name):
+            names.append(e.id)
+        else:
+            return None                  # a call / cast / arithmetic wrapped around a column: refuse
+    return names
+
+
+def _straight_prefix(stmts):
+    """the Assign/AugAssign statements of a straight-line prefix (docstrings, logging and guard clauses skipped);
+    None if anything else (loop, try, with, branching assignment) occurs"""
+    body = []
+    for st in stmts:
+        if isinstance(st, (ast.Assign, ast.AugAssign)):
+            body.append(st)
+        elif isinstance(st, ast.Expr):
+            continue
+        elif isinstance(st, ast.If) and all(isinstance(b, (ast.Return, ast.Raise, ast.Expr)) for b in st.body) and not st.orelse:
+            continue
+        else:
+            return None
+    return body
+
+
+def _single_assignment(stmts, var):
+    """(index, rhs) of the only top-level assignment to `var` in stmts, which must not be stored to anywhere else"""
+    idx = [k for k, st in enumerate(stmts) if isinstance(st, ast.Assign) and len(st.targets) == 1
+           and isinstance(st.targets[0], ast.Name) and st.targets[0].id == var]
+    stores = [n for st in stmts for n in ast.walk(st) if isinstance(n, ast.Name) and n.id == var and isinstance(n.ctx, ast.Store)]
+    if len(idx) != 1 or len(stores) != 1:
+        return None
+    return idx[0], stmts[idx[0]].value
+
+
+def _slice_embed(repo):
+    """the straight-line code that builds the array `regroup_dbscan` gives to DBSCAN, as a function of one row
+    (ra_deg, dec_deg) whose last three assignments name the three columns; '' if it cannot be cut out.
+    Recognised: the array assembled in regroup_dbscan itself, or by a straight-line module-level helper called as
+    `X = helper(srccat)` / `.fit(helper(srccat))` that ends in `return <stack>` or `X = <stack>; return X`."""
+    try:
+        tree = ast.parse(open(os.path.join(repo, 'AegeanTools', 'cluster.py')).read())
+        funcs = {n.name: n for n in tree.body if isinstance(n, ast.FunctionDef)}
+        fn = funcs['regroup_dbscan']
+        fits = [n for n in ast.walk(fn) if isinstance(n, ast.Call) and isinstance(n.func, ast.Attribute)
+                and n.func.attr in ('fit', 'fit_predict') and len(n.args) == 1]
+        if len(fits) != 1:
+            return ''
+        arg = fits[0].args[0]
+        stmts = list(fn.body)
+        if isinstance(arg, ast.Name):
+            r = _single_assignment(stmts, arg.id)
+            if r is None:
+                return ''                # assembled in a branch, re-assigned (e.g. cast afterwards), …: refuse
+            pre, rhs = stmts[:r[0]], r[1]
+        else:
+            pre, rhs = [], arg
+        if isinstance(rhs, ast.Call) and isinstance(rhs.func, ast.Name) and rhs.func.id in funcs \
+                and len(rhs.args) == 1 and isinstance(rhs.args[0], ast.Name) and not rhs.keywords:
+            helper = funcs[rhs.func.id]
+            if len(helper.args.args) != 1 or helper.args.vararg or helper.args.kwarg or helper.decorator_list:
+                return ''
+            hb = [st for st in helper.body if not (isinstance(st, ast.Expr) and isinstance(st.value, ast.Constant))]
+            if not hb or not isinstance(hb[-1], ast.Return) or hb[-1].value is None:
+                return ''
+            if any(isinstance(n, ast.Return) for st in hb[:-1] for n in ast.walk(st) if not isinstance(st, ast.If)):
+                return ''
+            ret = hb[-1].value
+            if isinstance(ret, ast.Name):
+                r = _single_assignment(hb[:-1], ret.id)
+                if r is None:
+                    return ''
+                pre, rhs = hb[:r[0]], r[1]
+            else:
+                pre, rhs = hb[:-1], ret
+        cols = _column_names(rhs)
+        if cols is None or len(cols) != 3:
+            return ''
+        body = _straight_prefix(pre)
+        if body is None:
+            return ''
+        body = [_Columns().visit(st) for st in body]
+        for k, c in enumerate(cols):
+            body.append(ast.Assign(targets=[ast.Name(id=f'col{k}', ctx=ast.Store())], value=ast.Name(id=c, ctx=ast.Load())))
+        f = ast.FunctionDef(name='embed_slice',
+                            args=ast.arguments(posonlyargs=[], args=[ast.arg(arg='ra_deg'), ast.arg(arg='dec_deg')],
+                                               kwonlyargs=[], kw_defaults=[], defaults=[]),
+                            body=body + [ast.Return(value=ast.Constant(value=None))], decorator_list=[], type_params=[])
+        mod = ast.Module(body=[f], type_ignores=[])
+        ast.fix_missing_locations(mod)
+        return ast.unparse(mod) + "\n"
+    except Exception:  # noqa: BLE001
+        return ''
+
+
+def _slice_file2():
+    fd, path = tempfile.mkstemp(prefix='verif-C19-embed-', suffix='.py')
+    with os.fdopen(fd, 'w') as f:
+        f.write("# sliced from cluster.regroup_dbscan by translator/targets/C19.py\n" + _slice_embed(_REPO))
+    atexit.register(lambda p=path: os.path.exists(p) and os.unlink(p))
+    return path
+
+
 def _slice_file():
     fd, path = tempfile.mkstemp(prefix='verif-C19-slice-', suffix='.py')
     with os.fdopen(fd, 'w') as f:
@@ -98,4 +262,11 @@ TARGETS = [
          fallback={'resizeA': _fb('resizeA', 'resizeHand a psf_a ratio', _RP),
                    'resizeB': _fb('resizeB', 'resizeHand b psf_b ratio', _RP)},
          all_params=_RP),
+    dict(file=_slice_file2(), func='embed_slice', mode='real',
+         params={'ra_deg': 'A', 'dec_deg': 'A'}, subst={},
+         outputs=[('col0', 'vec0'), ('col1', 'vec1'), ('col2', 'vec2')],
+         fallback={'vec0': _fb('vec0', 'vec0Hand ra_deg dec_deg', ['ra_deg', 'dec_deg']),
+                   'vec1': _fb('vec1', 'vec1Hand ra_deg dec_deg', ['ra_deg', 'dec_deg']),
+                   'vec2': _fb('vec2', 'vec2Hand ra_deg dec_deg', ['ra_deg', 'dec_deg'])},
+         all_params=['ra_deg', 'dec_deg']),
 ]
